@@ -227,10 +227,15 @@ pub fn run_history(rng: &mut Rng, o: &Opts, out: &mut Out, hist: usize) {
         let p = o.profile;
         let txn_share = match p { Profile::Txn => 45, Profile::Search => 0, _ => 8 };
         let select_share = match p { Profile::Search => 55, Profile::Txn => 5, _ => 22 };
-        let step = if p == Profile::Big {
-            if si < 4 { Step::Exec(gen_big_build(rng, &live, si)) }
+        let step = if p == Profile::Big || p == Profile::BigPath {
+            if p == Profile::BigPath {
+                if si < 6 { Step::Exec(gen_routes_build(rng, &live, si)) }
+                else if rng.chance(1, 10) { let st = 1 + rng.below(5) as usize; Step::Exec(gen_routes_build(rng, &live, st)) }
+                else { Step::Exec(Q::SearchQ(Box::new(gen_routes_search(rng, &live)))) }
+            }
+            else if si < 4 { Step::Exec(gen_big_build(rng, &live, si, false)) }
             else if rng.chance(1, 10) { Step::Exec(gen_mut(rng, &live, Profile::Graph)) }
-            else { Step::Exec(Q::SearchQ(Box::new(gen_big_search(rng, &live)))) }
+            else { Step::Exec(Q::SearchQ(Box::new(gen_big_search(rng, &live, false)))) }
         } else if roll < txn_share {
             let k = rng.range(1, 5) as usize;
             let qs: Vec<Q> = (0..k).map(|_| if rng.chance(1, 6) { gen_select(rng, &live, p) } else { gen_mut(rng, &live, p) }).collect();
